@@ -30,12 +30,11 @@ theorem storyOffsetsFrom_ok (ss : List Xml) (t : Nat) (h : ∀ s ∈ ss, storyOk
   induction ss generalizing t with
   | nil => exact ⟨[], rfl⟩
   | cons s ss ih =>
-    obtain ⟨hid, _, d, hd⟩ := storyOk_parts (h s List.mem_cons_self)
-    obtain ⟨e, he⟩ := Option.isSome_iff_exists.mp hid
+    obtain ⟨_, _, d, hd⟩ := storyOk_parts (h s List.mem_cons_self)
     obtain ⟨r, hr⟩ := ih (t + d.getD 0) (fun x hx => h x (List.mem_cons_of_mem _ hx))
-    refine ⟨(e.text, t) :: r, ?_⟩
+    refine ⟨t :: r, ?_⟩
     unfold storyOffsetsFrom
-    simp only [he, hd, bind, Except.bind, hr, pure, Except.pure]
+    simp only [hd, bind, Except.bind, hr, pure, Except.pure]
 
 theorem histInv_dom (d : Xml) (h : HistInv d = true) : WfRO d = true ∧ TimingOk d = true := by
   unfold HistInv at h
